@@ -431,6 +431,9 @@ func scenarios() []scenario {
 	add("multi", "XB", 3, 4, -1, "D3:4,5 R")        // single-goroutine loop
 	add("multi", "XB", 3, 0, 2, "D3:0,1,2,3,4,5 R") // whole session through the single-goroutine loop
 	add("multi", "XB", 3, 0, 2, "A0 A1 A2", "A3 A4 A5", "D2 R")
+	// each thread delivers ONE sender's messages (broadcast, then p2p, then the next round's broadcast): the two p2p
+	// messages of a round are then in Accept at the same time, and either call may be the one that completes the round
+	add("multi", "XB", 3, 0, 2, "A0 A1 A4", "A2 A3 A5", "D2 R")
 	// --- TwoPartyHandler
 	for _, d := range []string{"D1", "D2"} {
 		add("two-follower", "3", 2, 0, -1, "A0", "S", d+" R")
